@@ -16,6 +16,9 @@ from genlm.grammar import semiring as S
 from genlm.grammar.semiring import Semiring
 
 FLOAT_RTOL = 1e-8
+# absolute slack: the library's own fixed points (null weights, totals) stop when an update is
+# below 1e-12, so a value may carry an absolute error of a few 1e-12 whatever its size
+FLOAT_ATOL = 1e-10
 
 
 # ---------------------------------------------------------------------------------------------
@@ -338,10 +341,15 @@ class FloatM(Model):
     def star(self, a):
         return 1 / (1 - a)
 
+    atol = FLOAT_ATOL
+
     def eq(self, a, b):
         if isinstance(a, float) and (math.isnan(a) or math.isinf(a)):
             return False
-        return abs(a - b) <= self.rtol * max(1.0, abs(b))
+        return abs(a - b) <= self.rtol * abs(b) + self.atol
+
+    def is_zero(self, a):
+        return a == 0  # exact: tiny values are not zero
 
     def parse(self, s):
         return float(Fraction(s))
@@ -404,9 +412,12 @@ class PairM(Model):
 
     def eq(self, a, b):
         return all(
-            not (math.isnan(x) or math.isinf(x)) and abs(x - y) <= self.rtol * max(1.0, abs(y))
+            not (math.isnan(x) or math.isinf(x)) and abs(x - y) <= self.rtol * abs(y) + FLOAT_ATOL
             for x, y in zip(a, b)
         )
+
+    def is_zero(self, a):
+        return a[0] == 0 and a[1] == 0
 
     def parse(self, s):
         p, r = s.split(",")
